@@ -24,9 +24,50 @@ Print Assumptions C12_ok_only_if_balanced.
 From BW Require Import Context.
 From BWGen Require Import ExtTable.
 From BWP Require Import Context_proofs.
+From BW Require Import Main.
+From BWP Require Import Main_proofs MainCompose_proofs.
+From BWGen Require Import ExtTable.
 Theorem C12_error_aborts_scan : forall ext_map fs changes f e,
   In f fs -> scanned f = true ->
   parse_one ext_map f true (match changes_for (rf_path f) changes with Some l => l | None => [] end) = Some (Err e) ->
   In e (cr_errs (build_context ext_map fs true changes)).
 Proof. exact scanned_error_reported. Qed.
 Print Assumptions C12_error_aborts_scan.
+
+(* Through main, scan and list mode: an accepted command line with a scanned file whose tags do not balance ends with a non-zero status (1, or 101 if something panics first), whatever else is in the run and whatever the diff on stdin is. *)
+Theorem C12_unbalanced_scanned_file_fails_process : forall a p ms tb cd m,
+  plan_of a = Ok p -> In m ms ->
+  pl_scan p = true -> scanned (seen_file a p m) = true ->
+  grammar_of ext_table (pl_ext p) (rf_path (mf_file m)) <> None ->
+  rf_readable (mf_file m) = true ->
+  parse_file (rf_text (mf_file m)) (rf_spans (mf_file m)) = Err E_PARSE ->
+  main_exit (main_model a ms tb cd) <> 0 /\
+  (main_exit (main_model a ms tb cd) = 1 \/ main_exit (main_model a ms tb cd) = 101).
+Proof. exact unbalanced_scanned_file_fails_main. Qed.
+Print Assumptions C12_unbalanced_scanned_file_fails_process.
+
+(* The same for a file named in the diff. *)
+Theorem C12_unbalanced_diff_file_fails_process : forall a p ms tb cd ch m lcs,
+  plan_of a = Ok p -> NoDup (map (fun m => rf_path (mf_file m)) ms) -> In m ms ->
+  model_changes (main_case a p ms tb cd) = Ok ch -> In (rf_path (mf_file m), lcs) ch ->
+  (if ca_ign_post a =? 0 then mf_ign_pre m else mf_ign_post m) = false ->
+  (pl_scan p && scanned (seen_file a p m)) = false ->
+  grammar_of ext_table (pl_ext p) (rf_path (mf_file m)) <> None ->
+  rf_readable (mf_file m) = true ->
+  parse_file (rf_text (mf_file m)) (rf_spans (mf_file m)) = Err E_PARSE ->
+  main_exit (main_model a ms tb cd) <> 0 /\
+  (main_exit (main_model a ms tb cd) = 1 \/ main_exit (main_model a ms tb cd) = 101).
+Proof. exact unbalanced_diff_mfile_fails_main. Qed.
+Print Assumptions C12_unbalanced_diff_file_fails_process.
+
+(* Every mode at once: a file in scope with unbalanced tags. *)
+Theorem C12_unbalanced_in_scope_fails_process : forall a p ms tb cd m,
+  plan_of a = Ok p -> NoDup (map (fun m => rf_path (mf_file m)) ms) -> In m ms ->
+  (forall ch, model_changes (main_case a p ms tb cd) = Ok ch ->
+              in_scope (pl_scan p) ch (seen_file a p m) = true) ->
+  grammar_of ext_table (pl_ext p) (rf_path (mf_file m)) <> None ->
+  rf_readable (mf_file m) = true ->
+  parse_file (rf_text (mf_file m)) (rf_spans (mf_file m)) = Err E_PARSE ->
+  main_exit (main_model a ms tb cd) <> 0.
+Proof. exact unbalanced_in_scope_file_fails_main. Qed.
+Print Assumptions C12_unbalanced_in_scope_fails_process.
